@@ -638,6 +638,9 @@ class PhaseField(_Simu):
         if self.phaseFieldModel.solver == self.phaseFieldModel.SolverType.History:
             # update old history field for next resolution
             self.__old_psiP_e_pg = self.__psiP_e_pg
+            # the history field belongs to the iteration. It is sized by the elements, so it is kept in a
+            # dict like the state of Simulations.InElastic: a bare array would be taken for a dof vector
+            iter["history"] = {"psiP_e_pg": self.__old_psiP_e_pg.copy()}
 
         iter["displacement"] = self.displacement
         iter["damage"] = self.damage
@@ -660,12 +663,18 @@ class PhaseField(_Simu):
         self.__updatedDamage = False
         self.__updatedDisplacement = False
 
+        if "history" in results:
+            # the history field saved with the iteration
+            self.__old_psiP_e_pg = results["history"]["psiP_e_pg"].copy()
+            self.__psiP_e_pg = self.__old_psiP_e_pg
+
         if (
             resetAll
             and self.phaseFieldModel.solver == self.phaseFieldModel.SolverType.History
         ):
             # It's really useful to do this otherwise when we calculate psiP there will be a problem
-            self.__old_psiP_e_pg = FeArray.zeros(*self.__old_psiP_e_pg.shape)
+            # (restarted as in the mesh setter: an iteration saved before the first Solve has no shape to give)
+            self.__old_psiP_e_pg = np.empty(0, dtype=float)
             # update psi+ with the current state
             self.__old_psiP_e_pg = self.__Calc_psiPlus_e_pg(self.mesh.groupElem)
 
